@@ -508,6 +508,8 @@ class CompositeFrontend(ConstrainedFrontend):
 
             for v in s.variables:
                 merged._solvers[v] = s
+            # the merged solver has not seen this child answer yet (it may be the unsatisfiable one)
+            merged._unchecked_solvers.add(s)
 
         noncommon_solvers = [[s for s in cs._solver_list if id(s) not in common_ids] for cs in [self, *others]]
         for cs, ns in zip([self, *others], noncommon_solvers, strict=True):
